@@ -738,6 +738,10 @@ class Evaluator:
                     if not (c[0] == 'ovf' or term['msg'].startswith('Overflow')):
                         st.events.append({'kind': 'assert', 'block': blk, 'cond': c, 'expected': term['expected'], 'msg': term['msg']})
                         st.preds.append((c, int(term['expected']), blk))
+                    else:
+                        # overflow check of a built-in operator: only present in checked builds, so no predicate may be
+                        # derived from it; rules that care about panics / wrap-around look at the event
+                        st.events.append({'kind': 'ovf_check', 'block': blk, 'cond': c, 'msg': term['msg'], 'span': term['span']['at'] if 'span' in term else ''})
                     blk = term['t']
                     continue
                 if k in ('call', 'tailcall'):
